@@ -95,6 +95,8 @@ def reference_faults(msg, rng):
         while tuple(missing) in kinds:
             missing = ub(rng.getrandbits(128))
         out.append(("dangling:" + name, put(msg, path, missing), "DeserializationError"))
+        if tuple(ub(0)) not in kinds:
+            out.append(("dangling-nil:" + name, put(msg, path, ub(0)), "DeserializationError"))
         wrong = [k for k in by_kind if k not in ok]
         if wrong:
             k = rng.choice(sorted(wrong))
@@ -133,14 +135,22 @@ def structural_faults(msg, rng, enums):
     for v in (0, 3, 5, 255, (1 << 32) - 1):
         if v != msg[3]:
             out.append(("version-field=%d" % v, put(msg, (3,), v), "ValueError"))
-    # the same UUID on two nodes of different kinds -> DeserializationError; of the same kind -> merged (coherence only)
+    # the same UUID on two nodes (same or different kinds): a node is defined once -> DeserializationError
     sites = uuid_sites(msg)
     if len(sites) >= 2:
         for _ in range(4):
             (k1, p1), (k2, p2) = rng.sample(sites, 2)
             if p1 == (0,) or k1 == "IR":
                 continue
-            out.append(("dup-uuid:%s=%s" % (k1, k2), put(msg, p1, get(msg, p2)), None if k1 == k2 else "DeserializationError*"))
+            out.append(("dup-uuid:%s=%s" % (k1, k2), put(msg, p1, get(msg, p2)), "DeserializationError"))
+        # one UUID on THREE nodes (a same-class pair plus a third of any class, in decode order)
+        if len(sites) >= 3:
+            for _ in range(3):
+                (k1, p1), (k2, p2), (k3, p3) = rng.sample(sites, 3)
+                if "IR" in (k1, k2):
+                    continue
+                m2 = put(put(msg, p1, get(msg, p3)), p2, get(msg, p3))
+                out.append(("triple-uuid:%s=%s=%s" % (k1, k2, k3), m2, "DeserializationError"))
     # a node carrying the UUID of one of its own ancestors (decode order matters: the ancestor must already be registered)
     for kind, path in sites:
         if kind == "IR":
